@@ -10,7 +10,7 @@ CLAIMED = {
              'order/disjointness, children inside parse groups, text recovery, no invented/duplicated token, the exact '
              'two-candidate rule; the model is tied to the code by running the extracted model and the real tokenizer on the '
              'same candidate sets (exhaustive small pairs, random sets, real renderer with regex-defined custom tokens).',
-        note='Trusted: Coq kernel, extraction (ExtrOcamlBasic), the hand-written model of span_tokenizer.py (correspondence-checked), '
+        note='relation is proved equal to the function translated from span_tokenizer.py on every run (C16_relation_is_the_source). Trusted: Coq kernel, extraction (ExtrOcamlBasic), the hand-written model of span_tokenizer.py (correspondence-checked), '
              'harness. Well-formed candidates assumed (start<=parse_start<=parse_end<=end<=len). Known finding kf_trailing_region.',
         technique='Coq proof (induction over the ParseToken forest invariant) + extracted-model correspondence',
         design='5/C16'),
@@ -34,7 +34,7 @@ CLAIMED = {
              'configurations (minus thematic-break coincidences): exactly one single-item list holding the tokenization of the text; the three list patterns enter by '
              'their exact regenerated shape and are evaluated with verified lemmas on greedy repetition in the matcher; a bounded kernel sweep through the inline phase '
              'is kept beside it. Model tied to the code by X-doc on the texts and on every embedding.',
-        note='Both laws are unbounded at the block-tokenizer level (the inline phase is applied to the same buffers on both sides). Trusted: Coq kernel incl. vm_compute, extraction, translators gen_regex/gen_config/gen_tables, '
+        note='The start predicates of the block model are proved equal to the start methods translated from block_token.py on every run (C04_block_starts_are_the_source). Both laws are unbounded at the block-tokenizer level (the inline phase is applied to the same buffers on both sides). Trusted: Coq kernel incl. vm_compute, extraction, translators gen_regex/gen_config/gen_tables, '
              'the hand-written parser model (correspondence-checked). Texts with tabs, with a blank last line, or (list law) with lines of spaces only are outside the quantifier. '
              'One genuine defect repaired (fix: 3e6741d).',
         technique='Coq proof (induction over lines; verified regex first-character analysis with reflective side conditions on regenerated patterns; bounded kernel sweep) '
@@ -47,7 +47,7 @@ CLAIMED = {
              'line is skipped by the loop. The law at the property\'s full strength (only the LAST block of A closed), whole pipeline with inline phase and line '
              'numbers, is kernel-checked on 781 x 13 pairs (bound in the theorem) and decided beyond that on the implementation by the oracle; model tied to the '
              'code by X-doc on the combined texts.',
-        note='PARTIAL in one respect: for top-level LISTS of A the theorem keeps a computable flag (the list is ended by a line of A) instead of deriving it from the closed last block (kernel sweep of the full statement + oracle cover it). Trusted: Coq kernel incl. vm_compute, extraction, translators, '
+        note='Heading.start and CodeFence.start, with the class attributes they leave behind for read(), and the other start predicates of the model are proved equal to the methods translated from block_token.py on every run (C05_block_starts_are_the_source). PARTIAL in one respect: for top-level LISTS of A the theorem keeps a computable flag (the list is ended by a line of A) instead of deriving it from the closed last block (kernel sweep of the full statement + oracle cover it). Trusted: Coq kernel incl. vm_compute, extraction, translators, '
              'the hand-written parser model (correspondence-checked). Scratch-state leakage between readers (the property\'s concern) cannot exist in the pure model: that '
              'the implementation behaves like the model on adjacent blocks is exactly what X-doc and the law oracle check.',
         technique='Coq proof (induction over the dispatch loop; look-ahead lemmas for every reader) + bounded kernel sweep + extracted-model correspondence + law oracle',
@@ -63,7 +63,7 @@ CLAIMED = {
              'one line x 1-3 tokens or two lines x 1-2 tokens over a 16-token vocabulary that passes an inertness predicate written from the CommonMark rules '
              '(independent of the parser model) as <p> + escaped text + </p>. (c) Oracle on the implementation: 143-token vocabulary, 1-4 lines, exhaustive 1- and '
              '2-token lines, same predicate; model tied by X-doc and by comparing the model\'s HTML.',
-        note='Unbounded for trigger-free paragraphs and for paragraphs with inert * _ [ ] ! < > ( ) of any number of lines. PARTIAL for the other inert positions the property names (& not starting a character reference, single ~, a line that begins with a marker character used as a word such as -x or #tag or 1.a, | outside a table): bounded in the kernel, sampled beyond. Trusted: Coq kernel incl. vm_compute, '
+        note='The block start predicates and is_closer / follows of the model are proved equal to the functions translated from the source on every run (C14_block_starts_are_the_source, C14_closer_is_the_source). Unbounded for trigger-free paragraphs and for paragraphs with inert * _ [ ] ! < > ( ) of any number of lines. PARTIAL for the other inert positions the property names (& not starting a character reference, single ~, a line that begins with a marker character used as a word such as -x or #tag or 1.a, | outside a table): bounded in the kernel, sampled beyond. Trusted: Coq kernel incl. vm_compute, '
              'extraction, translators, the hand-written pipeline model (correspondence-checked), the inertness predicate (python and Coq twins; conservative - '
              'texts with ~~, backticks, backslashes, tabs are skipped).',
         technique='Coq proof (verified regex first-character analysis with reflective side conditions; bounded kernel sweep guarded by an independent predicate) '
